@@ -22,6 +22,7 @@ def Mutation.target : Mutation → Option Observable
   | .setField o n _ _ => some (.trait o n)
   | .read o n _ => some (.trait o n)
   | .addTrait o _ _ _ => some (.trait o nTraitAdded)
+  | .announce o _ _ => some (.trait o nTraitAdded)
   | .listAppend c _ => some (.cont c)
   | .listInsert c _ _ => some (.cont c)
   | .listDel c _ => some (.cont c)
@@ -165,6 +166,14 @@ theorem mutate_delivered (E : Env) (st : St) (m : Mutation) :
         · simp at hd
     · simp [skip] at hd
   | addTrait o n tagged dflt =>
+    simp only [mutate] at hd
+    simp only [Mutation.target, Option.some.injEq]
+    split at hd
+    · split at hd
+      · simp at hd
+      · exact trait_case _ _ _ _ _ _ hd
+    · simp [skip] at hd
+  | announce o n guard =>
     simp only [mutate] at hd
     simp only [Mutation.target, Option.some.injEq]
     split at hd
@@ -388,6 +397,13 @@ theorem mutate_allDead (E : Env) (st : St) (m : Mutation) (hall : ∀ o, AllDead
         · simp
     · simp [skip]
   | addTrait o n tagged dflt =>
+    simp only [mutate]
+    split
+    · split
+      · simp
+      · rw [fire_allDead E st.H _ o _ _ _ hall]; simp
+    · simp [skip]
+  | announce o n guard =>
     simp only [mutate]
     split
     · split
